@@ -35,6 +35,8 @@ OPS = {
     "clear": ("v.clear();", "SurfaceMut::clear"),
     "insert": ("v.insert(ins_pos, [71u8, 72, 73]);", "SurfaceMut::insert,SurfaceMutIter::nth"),
     "get": ("got_probe = v.get(probe).copied();", "Surface::get"),
+    "get_mut": ("got_probe = v.get_mut(probe).map(|c| *c);", "SurfaceMut::get_mut"),
+    "fill_with": ("v.fill_with(|_pos, old| old + 100);", "SurfaceMut::fill_with"),
     "iter": ("for (i, x) in v.iter().enumerate() { count += 1; if ww > 0 && *x != root_value(T, rw, cw, i / ww, i % ww) { order_ok = false; } }", "Surface::iter,SurfaceIter::nth"),
 }
 
@@ -81,6 +83,7 @@ fn c07_twin_%s_%s() {
             match ("%s", inside) {
                 ("fill", Some(_)) => assert!(cell == 99),
                 ("clear", Some(_)) => assert!(cell == 0),
+                ("fill_with", Some(_)) => assert!(cell == old + 100),
                 ("insert", Some((vr, vc))) => {
                     let k = vr * ww + vc;
                     let k0 = ins_pos.row * ww + ins_pos.col;
@@ -92,14 +95,14 @@ fn c07_twin_%s_%s() {
         }
         r += 1;
     }
-    if "%s" == "get" {
+    if "%s" == "get" || "%s" == "get_mut" {
         let want = if !empty && probe.row < wh && probe.col < ww { Some(root_value(T, rw, cw, probe.row, probe.col)) } else { None };
         assert!(got_probe == want);
     }
     if "%s" == "iter" { assert!(count == wh * ww && order_ok); }
     kani::cover!(wh == 2 && ww == 2);
 }
-''' % (tname, op, fns, op, tname, tname, op, "true" if t else "false", base, code, op, op, op)
+''' % (tname, op, fns, op, tname, tname, op, "true" if t else "false", base, code, op, op, op, op)
 
 def chain_harness(t, op):
     """depth-2 chain: view of a view (thorough tier)"""
@@ -174,6 +177,6 @@ for t in (False, True):
     for op in ("fill", "get"):
         parts.append(chain_harness(t, op))
 for t in (False, True):
-    for op in ("fill", "clear", "insert", "get", "iter"):
+    for op in ("fill", "clear", "insert", "get", "iter", "get_mut", "fill_with"):
         parts.append(harness(t, op))
 TEXT = "\n".join(parts)
